@@ -279,6 +279,20 @@ def run(tier):
             npub += 1
         if len(recs) >= 3000:
             flush("ApiBatch")
+    # no single datagram, but a schedule: well-formed non-matching datagrams arriving every ~0.3 ms across the request's deadline
+    # (the receive loop recomputes its remaining time around the moment it reaches zero) - TimeoutError, never a panic
+    from checks import c18
+    for cfgname in ("v2c", "v3-md5"):
+        for client in ("sync", "async"):
+            for rep in range(2 if not thorough else 6):
+                try:
+                    res, _el = c18.run_flood(client, std[cfgname])
+                except BaseException as e:  # noqa
+                    res = "HARNESS:" + type(e).__name__
+                ok_names = ("delivered", "TimeoutError")
+                recs.append(dict(exc="" if res == "delivered" else res, bases=[], isexc=res != "PanicException", op="get"))
+                items.append(("api", dict(cfg=cfgname, op=client + ".get", mutant=dict(t="stray-flood", mut="across-deadline", why="", b=[]))))
+                chk.case(("flood", client, cfgname, rep))
     # odd privacy parameter / ciphertext sizes through real DES / AES sessions
     for cfgname in ("v3-md5-des", "v3-sha1-aes"):
         cfg = std[cfgname]
